@@ -112,6 +112,8 @@ class Interp:
         self.facts = facts
         self.max_depth = max_depth
         self.extern = extern or {}   # callee path suffix -> python callable(args)->value
+        self.max_loop = 64
+        self.formatted = []          # strings handed to the formatting machinery (diagnostic text is not modelled further)
 
     # ---- patterns ----------------------------------------------------
     def match_pat(self, p, v, env):
@@ -303,6 +305,12 @@ class Interp:
             val = self.ev(e["r"], env, depth)
             self.assign(e["l"], val, env, depth)
             return ()
+        if k == "AssignOp":
+            cur = self.ev(e["l"], env, depth)
+            rhs = self.ev(e["r"], env, depth)
+            op = e["op"][:-6] if e["op"].endswith("Assign") else e["op"]
+            self.assign(e["l"], self.binop(op, cur, rhs), env, depth)
+            return ()
         if k == "Return":
             raise ReturnEx(self.ev(e["e"], env, depth) if "e" in e else ())
         if k == "Break":
@@ -326,6 +334,14 @@ class Interp:
             b = self.facts.bodies.get(e["path"])
             if b is not None and depth < self.max_depth:
                 return self.ev(b["thir"], {}, depth + 1)
+            nm = short(e["path"])
+            ty = e.get("ty", "")
+            if nm in ("MAX", "MIN") and ty in INT_BITS:
+                bits = INT_BITS[ty]
+                signed = ty.startswith("i")
+                if nm == "MAX":
+                    return (1 << (bits - 1)) - 1 if signed else (1 << bits) - 1
+                return -(1 << (bits - 1)) if signed else 0
             raise Unknown("const " + e["path"])
         if k == "Call":
             return self.call(e, env, depth)
@@ -398,7 +414,7 @@ class Interp:
             seq = list(itv)
         else:
             raise Unknown("for over %r" % (itv,))
-        if len(seq) > 64:
+        if len(seq) > self.max_loop:
             raise Unknown("loop too long for a table")
         for x in seq:
             env2 = env
@@ -438,6 +454,16 @@ class Interp:
                 return a & b
             if op == "BitOr":
                 return a | b
+            if op == "Div" and b != 0 and isinstance(a, int) and isinstance(b, int):
+                return abs(a) // abs(b) * (1 if (a >= 0) == (b >= 0) else -1)
+            if op == "Rem" and b != 0 and isinstance(a, int) and isinstance(b, int):
+                return abs(a) % abs(b) * (1 if a >= 0 else -1)
+            if op == "Shl" and isinstance(a, int) and isinstance(b, int) and 0 <= b < 128:
+                return a << b
+            if op == "Shr" and isinstance(a, int) and isinstance(b, int) and 0 <= b < 128:
+                return a >> b
+            if op == "BitXor":
+                return a ^ b
         if isinstance(a, bool) and isinstance(b, bool):
             if op == "BitAnd":
                 return a and b
@@ -584,6 +610,53 @@ class Interp:
             if isinstance(v, (list, tuple)):
                 return len(v) == 0
             raise Unknown("is_empty of %r" % (v,))
+        if gen.startswith("core::fmt::"):
+            # formatting machinery: arguments are evaluated (a slice that aborts must abort here too), output is not modelled
+            vals = [self.ev(a, env, depth) for a in args]
+            self.formatted += [v for v in vals if isinstance(v, str)]
+            if short(gen) in ("write_fmt", "write_str", "write_char", "pad"):
+                return Enum("Result", "Ok", {"0": ()})
+            return Opaque("fmt")
+        if gen in ("core::str::<impl str>::split_at", "core::str::<impl str>::find", "core::str::<impl str>::rfind", "core::str::<impl str>::is_char_boundary",
+                   "core::str::<impl str>::starts_with", "core::str::<impl str>::ends_with", "core::str::<impl str>::is_empty", "core::str::<impl str>::contains"):
+            s = self.ev(args[0], env, depth)
+            if not isinstance(s, str):
+                raise Unknown("%s on %r" % (short(gen), s))
+            b = s.encode("utf-8")
+            m = short(gen)
+            if m == "is_empty":
+                return len(b) == 0
+            x = self.ev(args[1], env, depth)
+            if m == "split_at":
+                if isinstance(x, int) and 0 <= x <= len(b):
+                    try:
+                        return (b[:x].decode("utf-8"), b[x:].decode("utf-8"))
+                    except UnicodeDecodeError:
+                        pass
+                raise Unknown("core::panicking: split_at(%r) is not on a char boundary of %r" % (x, s))
+            if m == "is_char_boundary":
+                if not isinstance(x, int):
+                    raise Unknown("is_char_boundary(%r)" % (x,))
+                return x == len(b) or (0 <= x < len(b) and (b[x] & 0xC0) != 0x80)
+            if not isinstance(x, str):
+                raise Unknown("%s with pattern %r" % (m, x))
+            xb = x.encode("utf-8")
+            if m in ("find", "rfind"):
+                i = b.find(xb) if m == "find" else b.rfind(xb)
+                return Enum("Option", "Some", {"0": i}) if i >= 0 else Enum("Option", "None")
+            return {"starts_with": b.startswith(xb), "ends_with": b.endswith(xb), "contains": xb in b}[m]
+        if gen in ("alloc::string::String::len", "core::str::<impl str>::len"):
+            v = self.ev(args[0], env, depth)
+            if isinstance(v, str):
+                return len(v.encode("utf-8"))
+            raise Unknown("len of %r" % (v,))
+        if gen in ("alloc::string::String::as_bytes", "core::str::<impl str>::as_bytes", "core::str::<impl str>::bytes", "alloc::string::String::into_bytes"):
+            v = self.ev(args[0], env, depth)
+            if isinstance(v, str):
+                return list(v.encode("utf-8"))
+            raise Unknown("bytes of %r" % (v,))
+        if gen in ("alloc::string::String::as_str", "alloc::string::ToString::to_string", "alloc::borrow::ToOwned::to_owned", "core::str::<impl str>::to_string"):
+            return self.ev(args[0], env, depth)
         if gen in ("core::slice::<impl [T]>::len", "alloc::vec::Vec::<T, A>::len"):
             v = self.ev(args[0], env, depth)
             if isinstance(v, (list, tuple)):
@@ -594,6 +667,18 @@ class Interp:
             i = self.ev(args[1], env, depth)
             if isinstance(base, (list, tuple)) and isinstance(i, int) and 0 <= i < len(base):
                 return base[i]
+            if isinstance(base, str) and isinstance(i, Enum) and i.adt in ("Range", "RangeFrom", "RangeTo", "RangeInclusive", "RangeToInclusive", "RangeFull"):
+                bb = base.encode("utf-8")
+                lo = i.fields.get("start", 0)
+                hi = i.fields.get("end", len(bb))
+                if i.adt in ("RangeInclusive", "RangeToInclusive") and isinstance(hi, int):
+                    hi += 1
+                if isinstance(lo, int) and isinstance(hi, int) and 0 <= lo <= hi <= len(bb):
+                    try:
+                        return bb[lo:hi].decode("utf-8")
+                    except UnicodeDecodeError:
+                        pass
+                raise Unknown("core::panicking: str slice [%r..%r] of a %d-byte string is out of range or not on a char boundary" % (lo, hi, len(bb)))
             if isinstance(base, (list, tuple)) and isinstance(i, Enum) and i.adt in ("Range", "RangeFrom", "RangeTo", "RangeInclusive", "RangeToInclusive", "RangeFull"):
                 lo = i.fields.get("start", 0)
                 hi = i.fields.get("end", len(base))
